@@ -59,6 +59,13 @@ def new_contrib(kind, params):
         return RayleighContribution()
     if kind == 'cloud':
         return SimpleCloudsContribution(clouds_pressure=params['cloudP'])
+    if kind == 'flat':
+        from taurex.contributions import FlatMieContribution
+        return FlatMieContribution(flat_mix_ratio=params.get('hazemix', 3e-27) * 3e-5, flat_bottomP=3e3, flat_topP=3e1)
+    if kind == 'lee':
+        from taurex.contributions import LeeMieContribution
+        return LeeMieContribution(lee_mie_radius=0.05, lee_mie_q=40, lee_mie_mix_ratio=params.get('hazemix', 3e-27) * 1e13,
+                                  lee_mie_bottomP=3e3, lee_mie_topP=-1)
     raise Machinery('unknown contribution kind ' + kind)
 
 
@@ -323,6 +330,47 @@ def weighting(ctx):
                     detail='insertion order %r gives list %r / different T' % (perm, names), vector=dict(added=list(perm)))
 
 
+def hazes(ctx):
+    """The remaining built-in sources (grey and Lee hazes) obey the same composition rules, also after a
+    change of their own parameters on a long-lived model."""
+    for kind, pname in (('flat', 'flat_mix_ratio'), ('lee', 'lee_mie_mix_ratio')):
+        params = dict(cloudP=1e2, mix=MIX[0], T=1000.0, hazemix=3e-27)
+        for added in (['abs', kind, 'ray'], [kind, 'cia', 'abs'], ['ray', 'abs', 'cloud', kind]):
+            m = build_model(added, params)
+            vec = dict(added=added, haze=kind)
+            steps = [('model', None), ('set', 2.0), ('fullc', None), ('contrib', None), ('set', 0.5), ('model', None)]
+            cur = dict(params)
+            for op, arg in steps:
+                cls = 'haze:%s:%s' % (kind, op)
+                if op == 'set':
+                    cur['hazemix'] = cur['hazemix'] * arg
+                    m[pname] = m[pname] * arg
+                    continue
+                ref_m = build_model(added, cur)
+                refT = np.asarray(ref_m.model()[2], dtype=float)
+                refc = proj_contrib(ref_m.model_contrib())
+                if op == 'model':
+                    T = np.asarray(m.model()[2], dtype=float)
+                    ctx.verdict('history_independent_model', same(T, refT), cls=cls, detail='haze model differs from a fresh model', vector=vec)
+                    ctx.verdict('product_over_sources', same(T, np.prod([refc[n] for n in refc], axis=0)), cls=cls,
+                                detail='T(all) != product over sources with a haze', vector=vec)
+                elif op == 'contrib':
+                    got = proj_contrib(m.model_contrib())
+                    ctx.verdict('every_source_once', sorted(got) == sorted(c.name for c in m.contribution_list), cls=cls,
+                                detail='sources %r' % sorted(got), vector=vec)
+                    for n in refc:
+                        ctx.verdict('history_independent_contrib', n in got and same(got[n], refc[n]), cls=cls + ':' + n,
+                                    detail='%s stale/wrong after a haze parameter change' % n, vector=vec)
+                else:
+                    got = proj_full(m.model_full_contrib())
+                    for n in refc:
+                        ok = n in got and same(np.prod([a for _, a in got[n]], axis=0), refc[n])
+                        ctx.verdict('product_over_components', ok, cls=cls + ':' + n,
+                                    detail='components of %s do not multiply to the source at the current parameters' % n, vector=vec)
+            names = [c.name for c in m.contribution_list]
+            ctx.verdict('list_restored', len(names) == len(added), cls='haze:' + kind, detail='list %r' % names, vector=vec)
+
+
 def run(ctx):
     q = ctx.tier == 'quick'
     ctx.bounds = dict(spec='4 contributions (2+1+2+1 components), <= %d parameter changes, all interleavings of the three public operations' % (3 if q else 5),
@@ -336,6 +384,7 @@ def run(ctx):
     install_fixtures()
     try:
         weighting(ctx)
+        hazes(ctx)
         res = core.run_tlc('MC_Compose', 'SIM_Compose.cfg', workers=1, simulate='num=%d' % (40 if q else 400),
                            depth=80, seed=ctx.seed + 1)
         ctx.add_tlc('simulate-behaviours', res, counts=False)
